@@ -1118,11 +1118,19 @@ pub fn model_drift(rec: &Rec, built: &Built, st: &mut Stats) {
         folds |= c.args.iter().all(|&a| is_const(a)) || c.op == "bits2";
     }
     let ids: Vec<i64> = built.hid.iter().map(|e| e.0 as i64).collect();
+    // the same op kinds in the same order over constant pools of different size: a constant the builder synthesises
+    // (-1 for `0 - x`, 2^j for bit decompositions) coincides with a pooled one in GF(p_model) and not in the real field
+    let kinds_only = |v: &Vec<(String, i64, i64, i64, i64, i64)>| v.iter().filter(|o| o.0 != "Const").map(|o| o.0.clone()).collect::<Vec<_>>();
+    let nconst = |v: &Vec<(String, i64, i64, i64, i64, i64)>| v.iter().filter(|o| o.0 == "Const").count();
+    let pool_only = kinds_only(&real) == kinds_only(&model) && nconst(&real) != nconst(&model);
     if real != model || ids != rec.ids {
-        if folds {
+        if folds || pool_only {
             st.drift_ids += 1; // explained: constant folding over different characteristics
         } else {
             st.drift_ops += 1; // unexplained structural drift between model and code
+            if std::env::var("P3R_DRIFT_DEBUG").is_ok() {
+                eprintln!("DRIFT calls={} real={:?} model={:?} ids={:?} model_ids={:?}", serde_json::to_string(&rec.calls).unwrap_or_default(), real, model, ids, rec.ids);
+            }
         }
     }
 }
